@@ -297,7 +297,7 @@ class Gen:
         # per-run op weights (swarm: some kinds disabled altogether)
         ops = {'open': 3, 'respond': 3, 'info': 1, 'data': 5, 'end': 2, 'trailers': 1, 'reset': 1,
                'ping': 1, 'ack': 4, 'settings': 0, 'push': 0, 'prio': 1, 'winc': 1, 'altsvc': 1,
-               'gc': 1, 'query': 2, 'goaway': 0}
+               'gc': 1, 'query': 2, 'goaway': 0, 'race': 0}
         for k in list(ops):
             if rng.random() < 0.2 and k not in ('open', 'respond'):
                 ops[k] = 0
@@ -307,6 +307,9 @@ class Gen:
             ops['push'] = P['push'] * 25
         if rng.random() < 0.5:
             ops['goaway'] = P['goaway'] * 10
+        self.no_winc = bool(P.get('no_manual_winc'))
+        if self.no_winc:
+            ops['winc'] = 0
         for k, mult in (P.get('ops_boost') or {}).items():
             ops[k] = max(ops.get(k, 0), 1) * mult
         self.ops = ops
@@ -788,6 +791,107 @@ class Gen:
             st = rng.choice(live)
             self.call(ep, rng.choice(['local_flow_control_window', 'remote_flow_control_window']), sid=st.sid)
 
+    def _op_race(self, ep, e, trk, live):
+        """Make the peer's frames for one stream cross this endpoint's RST_STREAM:
+        hold the peer->me direction, let the peer talk on the stream, reset it
+        here, then let the held frames arrive."""
+        rng = self.rng
+        w = self.w
+        x = w.peer(ep)
+        xt = w.eps[x].trk
+        cands = [st for st in live if st.state in ('open', 'hcL', 'hcR', 'rsvR') and xt.get(st.sid) is not None
+                 and xt.get(st.sid).state != 'closed']
+        if not cands or xt.closed:
+            return
+        st = rng.choice(cands)
+        sid = st.sid
+        d = w.in_dir(ep)
+        self.stalled[d] = max(self.stalled[d], rng.randrange(10, 40))
+        for _ in range(rng.randrange(1, 6)):
+            if self.halted:
+                return
+            xs = xt.get(sid)
+            if xs is None or xs.state == 'closed':
+                break
+            self._talk_on(x, w.eps[x], xt, xs)
+        if self.halted:
+            return
+        if not self.eager:
+            self.flush(x)
+        if rng.random() < 0.3:
+            self._op_gc(ep, e, trk, live)
+        self.call(ep, 'reset_stream', sid=sid, code=rng.choice([0, 8, 7, 2]))
+        if rng.random() < 0.4 and not self.halted:
+            self._op_gc(ep, e, trk, live)
+        if rng.random() < 0.5:
+            self.stalled[d] = 0
+
+    def _talk_on(self, x, xe, xt, xs):
+        """One valid action of endpoint x on stream xs (by x's own view)."""
+        rng = self.rng
+        sid = xs.sid
+        mf = self._max_frame(xt)
+        hg = self.hg[x]
+        server_side = (not xs.mine) or xs.pushed
+        choices = []
+        if xs.state in ('open', 'hcR', 'rsvL'):
+            if server_side and not xe.client:
+                if xs.sent in (NONE, INFO):
+                    choices += ['final', 'final', 'info'] if xs.state != 'rsvL' else ['final']
+                    if xs.state != 'rsvL' and xt.peer.get(C.S_ENABLE_PUSH, 1) and not xs.mine:
+                        choices += ['push']
+                elif xs.sent == FINAL:
+                    choices += ['data', 'data', 'trailers', 'end']
+                    if xt.peer.get(C.S_ENABLE_PUSH, 1) and not xs.mine:
+                        choices += ['push']
+            elif xs.sent == FINAL:
+                choices += ['data', 'data', 'trailers', 'end']
+        if not self.no_winc or not choices:
+            choices += ['winc']
+        c = rng.choice(choices)
+        if c == 'winc' and self.no_winc:
+            return
+        if c == 'final':
+            if xs.state == 'rsvL':
+                lim = xt.peer.get(C.S_MAX_CONCURRENT_STREAMS)
+                if lim is not None and xt.count_open(True) >= lim:
+                    return
+            self.call(x, 'send_headers', sid=sid, headers=hg.response(max_frame=mf), es=rng.random() < 0.2)
+        elif c == 'info':
+            self.call(x, 'send_headers', sid=sid, headers=hg.response(info=True, max_frame=mf))
+        elif c == 'trailers':
+            self.call(x, 'send_headers', sid=sid, headers=hg.trailers(mf), es=True)
+        elif c == 'end':
+            self.call(x, 'end_stream', sid=sid)
+        elif c == 'data':
+            if self._no_body(xt, xs):
+                return
+            room = min(xt.conn_send, xs.send_win, mf)
+            if room < 0:
+                return
+            n = rng.choice([0, 1, min(room, 100), min(room, 5000), room])
+            self.call(x, 'send_data', sid=sid, data=b'r' * n, es=rng.random() < 0.15,
+                      pad=rng.choice([None, None, 0]) if room > n else None)
+        elif c == 'push':
+            promised = xt.hi_mine + 2 if xt.hi_mine else 2
+            if promised > MAXID:
+                return
+            s_ = self.call(x, 'push_stream', sid=sid, promised=promised, headers=hg.request(mf, method='GET'))
+            if s_ is not None and s_.ok and rng.random() < 0.6 and not self.halted:
+                lim = xt.peer.get(C.S_MAX_CONCURRENT_STREAMS)
+                if lim is None or xt.count_open(True) < lim:
+                    self.call(x, 'send_headers', sid=promised, headers=hg.response(max_frame=mf), es=rng.random() < 0.3)
+                    if rng.random() < 0.5 and not self.halted:
+                        ps = xt.get(promised)
+                        if ps is not None and ps.state == 'hcR' and ps.sent == FINAL:
+                            room = min(xt.conn_send, ps.send_win, mf, 200)
+                            if room >= 0:
+                                self.call(x, 'send_data', sid=promised, data=b'q' * room, es=rng.random() < 0.5)
+        else:
+            room = MAXID - xs.recv_win
+            if room >= 1 and xs.state != 'rsvL':
+                self.call(x, 'increment_flow_control_window', inc=min(room, rng.choice([1, 100])), sid=sid)
+
     def _op_goaway(self, ep, e, trk, live):
         rng = self.rng
         kw = {}
@@ -870,6 +974,8 @@ class Gen:
             self.call(ep, 'prioritize', sid=rng.choice([sid, max(sid, 1)]), pw=rng.choice([None, 0, 1, 256, 257, 300]),
                       pd=rng.choice([None, 0, sid, 5]), pe=rng.choice([None, True, False]))
         elif k == 7:
+            if self.no_winc:
+                return
             inc = rng.choice([0, 1, -1, 2 ** 31 - 1, 2 ** 31, MAXID - trk.conn_recv + 1, 65535])
             tsid = rng.choice([None, sid])
             if tsid is not None and not fsm_ok and not (st is not None and st.state != 'closed'):
